@@ -8,10 +8,20 @@ from .. import core, gen, sx
 
 THEOREMS = ['C19.shipped_notations_show_their_arguments', 'C19.shipped_notations_arity', 'C19.shipped_notations_shaped',
             'C19.different_denotation_different_argument', 'C19.shown_argument_is_visible',
-            'C19.unshown_argument_is_invisible']
+            'C19.unshown_argument_is_invisible',
+            # the source text: pattern.py `pretty` / pretty_printing_interpreter.py (vlib/transpretty.py -> Pi2/Gen/PyPretty.lean, Pi2/PrettyTie.lean)
+            'C19.pretty_printer_translated', 'C19.pretty_text_is_the_model', 'C19.pretty_text_sound_at_every_fuel', 'C19.pretty_outside_table',
+            'C19.pretty_table_lookup', 'C19.str_is_pretty_default',
+            'C19.pretty_steps_match_binary_instructions', 'C19.pretty_steps_match_serializer_bytes', 'C19.pretty_wrapper_shape',
+            'C19.pretty_one_step_line_per_call', 'C19.pretty_step_keyword_is_a_word', 'C19.pretty_stack_dump_indented', 'C19.pretty_file_lists_the_calls']
 
 
-def gen_pp(rng, depth, nots):
+SYMS = ("s0", "s1", "foo", "⌈_⌉")
+# names that exercise `repr(str)` in the fallback branch of `Instantiate.pretty` (quotes, backslash)
+SYMS_Q = SYMS + ("it's", 'say"x"', "a'b\"c", "back\\slash", "Lbl'-LT-'k'-GT-'")
+
+
+def gen_pp(rng, depth, nots, syms=SYMS):
     if depth <= 0 or rng.random() < 0.3:
         r = rng.random()
         if r < 0.3:
@@ -19,22 +29,22 @@ def gen_pp(rng, depth, nots):
         if r < 0.5:
             return f'(svar {rng.choice(gen.IDS)})'
         if r < 0.7:
-            return f'(sym {rng.choice(("s0", "s1", "foo", "⌈_⌉"))})'
+            return f'(sym {rng.choice(syms)})'
         return f'(mv {rng.choice((0, 1, 2, 3))})'
     r = rng.random()
     d = depth - 1
     if r < 0.2:
-        return f'(imp {gen_pp(rng, d, nots)} {gen_pp(rng, d, nots)})'
+        return f'(imp {gen_pp(rng, d, nots, syms)} {gen_pp(rng, d, nots, syms)})'
     if r < 0.3:
-        return f'(app {gen_pp(rng, d, nots)} {gen_pp(rng, d, nots)})'
+        return f'(app {gen_pp(rng, d, nots, syms)} {gen_pp(rng, d, nots, syms)})'
     if r < 0.4:
-        return f'(ex {rng.choice(gen.IDS)} {gen_pp(rng, d, nots)})'
+        return f'(ex {rng.choice(gen.IDS)} {gen_pp(rng, d, nots, syms)})'
     if r < 0.45:
-        return f'(mu {rng.choice(gen.IDS)} {gen_pp(rng, d, nots)})'
+        return f'(mu {rng.choice(gen.IDS)} {gen_pp(rng, d, nots, syms)})'
     if r < 0.5:
-        return f'(esub (mv {rng.choice(gen.IDS)}) {rng.choice(gen.IDS)} {gen_pp(rng, d, nots)})'
+        return f'(esub (mv {rng.choice(gen.IDS)}) {rng.choice(gen.IDS)} {gen_pp(rng, d, nots, syms)})'
     idx = rng.randrange(len(nots))
-    return '(napp %d %s)' % (idx, ' '.join(gen_pp(rng, d, nots) for _ in range(nots[idx][1])))
+    return '(napp %d %s)' % (idx, ' '.join(gen_pp(rng, d, nots, syms) for _ in range(nots[idx][1])))
 
 
 def run(rep):
@@ -52,6 +62,17 @@ def run(rep):
                 laws.append('law-pretty-shows %d %d (%s) %s' % (idx, i, ' '.join(args), gen_pp(rng, rng.choice((0, 1, 2)), nots)))
     for _ in range(600 if quick else 10000):
         lines.append('pretty ' + gen_pp(rng, 3, nots))
+    # the TRANSLATED pretty() (Gen.PyPretty.pretty, regenerated from pattern.py) against the real one, in all four option
+    # settings: the shipped table, `PrettyOptions()` (the fallback branch: str(pattern)[str(dict)]), simplify_instantiations
+    glines = []
+    import os
+    symtab = '(' + ' '.join(f'({k} {nm})' for nm, k in json.load(open(os.path.join(core.BUILD, 'notations.json')))['symbols'].items()) + ')'
+    for mode in ('table', 'empty', 'simplify', 'simplify-empty'):
+        for _ in range(150 if quick else 2500):
+            glines.append(f'pretty-gen {mode} {symtab} ' + gen_pp(rng, rng.choice((1, 2, 3)), nots, SYMS_Q))
+    ga = core.lean_drv(glines)
+    gp = core.py_h(glines)
+    gdis = [{'request': l, 'translated': a, 'python': b} for l, a, b in zip(glines, ga, gp) if a != b]
     la = core.lean_drv(lines)
     pa = core.py_h(lines)
     dis = [{'request': l, 'model': a, 'python': b} for l, a, b in zip(lines, la, pa) if a != b]
@@ -126,6 +147,10 @@ def run(rep):
     for b in bad[:8]:
         rep.violation('a notation application hides an argument its denotation depends on: ' + b['python'][:80], b, True,
                       key='py-pretty:' + b['request'].split(' (')[0])
+    rep.coverage['translated_pretty_vs_real'] = {'evaluations': len(glines), 'distinct': len(set(glines)), 'disagreements': len(gdis)}
+    for d in gdis[:5]:
+        rep.violation('the translated pretty() (Gen.PyPretty.pretty) differs from the real one',
+                      dict(d, broken='translation pattern.py -> Pi2/Gen/PyPretty.lean or the library models of Pi2/PrettySupport.lean'), False)
     if not bad:
         for d in dis[:5]:
             rep.violation('pretty() differs from the model; no hidden argument found',
